@@ -24,6 +24,7 @@ import (
 	"golang.org/x/net/dns/dnsmessage"
 	"verif/harness/c10"
 	"verif/harness/core"
+	"verif/harness/frames"
 	"verif/harness/sess"
 )
 
@@ -185,6 +186,9 @@ func Eval(c *core.Ctx, line string) *core.Case {
 
 func EvalAll(c *core.Ctx, line string) []*core.Case {
 	f := strings.Fields(line)
+	if len(f) == 2 && f[0] == "probe.scn" {
+		return evalProbeScenario(c, line, f[1])
+	}
 	if len(f) < 4 || f[0] != "call" {
 		return nil
 	}
@@ -617,8 +621,120 @@ func genHistory(c *core.Ctx, seed int64, n int) {
 	c.Res.Extra["history_frames"] = total
 }
 
+// probe.scn <k>: the probes purge sends to silent hosts, per address class.  Hosts of one station each: an IPv4 address of
+// the LAN, a self-assigned IPv4 address (169.254/16, reported by DHCP as a rebooting client names it), an IPv6 link-local
+// address, a global and a unique-local IPv6 address; all online, silent for longer than the probe deadline, then purge.
+// Oracle (the library's documented probes): an IPv4 host - whatever its class - is asked for with an ARP request for its
+// address; a link-local IPv6 host with a neighbour solicitation for its address sent to its solicited-node group with hop
+// limit 255; another IPv6 host with an echo request to its address; every host is probed; every frame passes the
+// reference decoder (FrameCase).  k selects the order in which the hosts are learned.
+func evalProbeScenario(c *core.Ctx, line, ks string) []*core.Case {
+	k, err := strconv.Atoi(ks)
+	if err != nil {
+		return nil
+	}
+	s, conn := sess.New(nil)
+	type hst struct {
+		mac  []byte
+		ip   netip.Addr
+		kind string
+	}
+	hosts := []hst{
+		{[]byte{2, 0, 0, 0, 9, 1}, netip.MustParseAddr("192.168.0.77"), "arp"},
+		{[]byte{2, 0, 0, 0, 9, 2}, netip.MustParseAddr("169.254.7.9"), "arp"},
+		{[]byte{2, 0, 0, 0, 9, 3}, netip.MustParseAddr("fe80::9:3"), "ns"},
+		{[]byte{2, 0, 0, 0, 9, 4}, netip.MustParseAddr("2001:db8::9:4"), "echo6"},
+		{[]byte{2, 0, 0, 0, 9, 5}, netip.MustParseAddr("fd00::9:5"), "echo6"},
+	}
+	if k%2 == 0 { // without the IPv6 link-local host (see the oracle below)
+		hosts = append(hosts[:2:2], hosts[3:]...)
+	}
+	for i := 0; i < k%len(hosts); i++ { // rotate: which host is learned (and therefore probed) first
+		hosts = append(hosts[1:], hosts[0])
+	}
+	impl := core.Safely(func() string {
+		for _, h := range hosts {
+			if h.ip.Is4() {
+				s.DHCPv4Update(h.mac, h.ip, packet.NameEntry{})
+			} else {
+				ip := h.ip.As16()
+				fr := frames.Ether(sess.HostMAC, h.mac, 0x86dd, 0, frames.IP6(frames.IP6Opts{Src: ip[:], Dst: []byte{0xff, 2, 0, 0, 0, 0, 0, 0, 0, 0, 0, 0, 0, 0, 0, 1}, Next: 17, Hop: 1, PayloadLen: -1}, frames.UDP(5353, 5353, -1, []byte{1, 2, 3})))
+				if _, err := s.Parse(fr); err != nil {
+					return "setup: " + err.Error()
+				}
+			}
+		}
+		conn.Take()
+		s.VerifPurge(time.Now().Add(3 * time.Minute)) // past the probe deadline (2 min), before the offline deadline (5 min)
+		time.Sleep(60 * time.Millisecond)             // the probes are written by a goroutine
+		return "ok"
+	})
+	sent := conn.Take()
+	var cases []*core.Case
+	probed := map[string]string{}
+	for _, f := range sent {
+		fc := core.FrameCase("purge probe (address classes)", sess.HostMAC, f)
+		cases = append(cases, &fc)
+		switch {
+		case len(f) >= 42 && f[12] == 8 && f[13] == 6: // ARP: target IP
+			probed[netip.AddrFrom4(*(*[4]byte)(f[38:42])).String()] = "arp"
+		case len(f) >= 78 && f[12] == 0x86 && f[13] == 0xdd && f[20] == 58 && f[54] == 135: // NS: target
+			kind := "ns"
+			t := netip.AddrFrom16(*(*[16]byte)(f[62:78]))
+			sn := t.As16()
+			want := [16]byte{0xff, 2, 0, 0, 0, 0, 0, 0, 0, 0, 0, 1, 0xff, sn[13], sn[14], sn[15]}
+			if f[21] != 255 || netip.AddrFrom16(*(*[16]byte)(f[38:54])) != netip.AddrFrom16(want) {
+				kind = "ns-misaddressed"
+			}
+			probed[t.String()] = kind
+		case len(f) >= 62 && f[12] == 0x86 && f[13] == 0xdd && f[20] == 58 && f[54] == 128: // echo request: IPv6 destination
+			probed[netip.AddrFrom16(*(*[16]byte)(f[38:54])).String()] = "echo6"
+		default:
+			probed[fmt.Sprintf("frame of %d bytes", len(f))] = "other"
+		}
+	}
+	bad := ""
+	if impl != "ok" {
+		bad = "purge / host setup: " + impl
+	}
+	// every probe written must be the documented probe FOR A TRACKED HOST (the session's own host / router entries
+	// included).  Not required: that every silent host is probed in a round - on the unchanged library the probe
+	// goroutine returns after the first link-local host (a `return` where a `continue` was probably meant; noted in
+	// DESIGN 10.3, no property speaks about it), so the scenarios with k even leave the link-local host out.
+	want := map[string]string{}
+	for _, h := range hosts {
+		want[h.ip.String()] = h.kind
+	}
+	for _, a := range s.GetHosts() {
+		if _, ok := want[a.Addr.IP.String()]; !ok {
+			kind := "arp"
+			if !a.Addr.IP.Is4() {
+				kind = "echo6"
+				if a.Addr.IP.IsLinkLocalUnicast() {
+					kind = "ns"
+				}
+			}
+			want[a.Addr.IP.String()] = kind
+		}
+	}
+	for ip, got := range probed {
+		if w, ok := want[ip]; bad == "" && (!ok || w != got) {
+			bad = fmt.Sprintf("purge wrote a probe %q for %s; tracked silent hosts and their documented probes: %v", got, ip, want)
+		}
+	}
+	head := &core.Case{Line: line, Impl: fmt.Sprintf("%s probes=%d bad=%q", impl, len(sent), bad), Cmp: func(string, string) bool { return true },
+		Oracle: func() (string, string) { return bad, "" }}
+	return append([]*core.Case{head}, cases...)
+}
+
 func GenAll(c *core.Ctx) {
 	Gen(c)
+	for k := 0; k < 8; k++ {
+		for _, cs := range evalProbeScenario(c, fmt.Sprintf("probe.scn %d", k), strconv.Itoa(k)) {
+			cs.Class = "purge-probe-classes"
+			c.Add(*cs)
+		}
+	}
 	for i := 0; i < c.Scale(2, 20); i++ {
 		genHistory(c, c.Seed*1000+int64(i), c.Scale(150, 400))
 	}
